@@ -159,8 +159,8 @@ Ended(d) == cst[d] \in {"offer", "done"}      \* `finished` is closed right befo
 
 JoinBegin(c, d) ==       \* select { case <-thread.finished: case <-ctx.Done(): }  is entered
     /\ cst[c] = "run" /\ sp[c].st = "idle" /\ jn[c].st = "none" /\ (StrictCancel => ~cancelled)
-    /\ cst[d] # "unborn" /\ c # d /\ joins < MaxJoins
-    /\ JoinParentOnly => par[d] = c
+    /\ cst[d] # "unborn" /\ joins < MaxJoins
+    /\ JoinParentOnly => par[d] = c /\ c # d       \* (through a global a thread can even get hold of its own handle)
     /\ jn' = [jn EXCEPT ![c] = [d |-> d, st |-> "wait"]] /\ joins' = joins + 1
     /\ H(d, "JoinBegin")
     /\ UNCHANGED <<list, rw, cst, res, work, cancelled, spawned, fatals, w, sp, calls, ret, par, wt>>
